@@ -300,8 +300,28 @@ func Guard(limit time.Duration, fn func() error) (err error, hung bool, panicked
 	case r := <-ch:
 		return r.err, false, r.panicked
 	case <-time.After(limit):
-		return fmt.Errorf("watchdog: no return within %s", limit), true, false
 	}
+	// The limit is >= 1000x the normal cost of a case, but this machine may be heavily loaded: before
+	// calling it a hang, keep waiting (without re-executing anything) up to guardFactor x limit in total.
+	// A genuine hang (busy loop, deadlock) never returns and is still reported, only later.
+	select {
+	case r := <-ch:
+		atomic.AddInt64(&SlowCases, 1)
+		return r.err, false, r.panicked
+	case <-time.After(time.Duration(guardFactor()-1) * limit):
+		return fmt.Errorf("watchdog: no return within %s", time.Duration(guardFactor())*limit), true, false
+	}
+}
+
+// SlowCases counts guarded calls that exceeded their nominal limit but returned within the extended one
+var SlowCases int64
+
+func guardFactor() int {
+	f := EnvInt("VERIF_GUARD_FACTOR", 5)
+	if f < 1 {
+		f = 1
+	}
+	return f
 }
 
 // Journal appends the case about to be executed to $VERIF_JOURNAL (one JSON document per line),
